@@ -79,7 +79,10 @@ def check_case(ctx, case):
 def gen_sources(ctx, rng):
     """yield (gen name, ddl, ctor) from the shared pool of every generator (vf.gen.sources)"""
     from vf.gen import sources
-    k, ddl = sources.any_script(rng, kinds=["mixed", "mixed", "tables", "tables", "tables", "tables", "history", "dialect", "types", "idents", "entities", "sequences", "commented"])
+    k, ddl = sources.any_script(rng, kinds=["mixed", "mixed", "tables", "tables", "tables", "tables", "history", "dialect", "types", "idents", "entities", "sequences", "commented"],
+                                   # not for the shape check: a FOREIGN KEY over columns the table does not declare (ill-formed: the library appends
+                                   # type-less stubs) and a key clause that re-quotes its columns (the names differ textually from the definitions)
+                                   exclude_mixed=("fk_undeclared", "pk_requoted"))
     ctx.obs["source:" + k] += 1
     return k, ddl, {}
 
